@@ -498,23 +498,44 @@ class AwareASTNode(DataClassSerializeMixin):
         return None
 
     def _check_attach(
-        self, operation: t.Literal["create", "attach", "replace"]
+        self,
+        operation: t.Literal["create", "attach", "replace"],
+        pending: dict[str, AwareASTNode] | None = None,
     ) -> tuple[AwareASTNode, AwareASTNode] | None:
-        """Dry run of `_attach_inner`: the same checks in the same order, changing nothing."""
-        if self.id in AwareASTNode._nodes:
+        """Dry run of `_attach_inner`: the same checks in the same order, changing nothing.
+
+        `pending` holds the nodes of the subtree that the real run will have registered
+        by the time it reaches this node.
+        """
+        if pending is None:
+            pending = {}
+
+        existing = AwareASTNode._nodes.get(self.id, pending.get(self.id))
+        if existing is not None:
             raise ASTNodeRegistryCollisionError(
                 new_node=self,
-                existing_node=AwareASTNode._nodes[self.id],
+                existing_node=existing,
                 operation=operation,
             )
 
         for c in self.get_child_nodes():
             if c.detached:
-                if (ret := c._check_attach(operation=operation)) is not None:
+                if (ret := c._check_attach(operation=operation, pending=pending)) is not None:
                     return ret
             elif not c.is_attached_root:
                 assert c.parent is not None
                 return (c, c.parent)
+
+        # Like the real run, a node is registered after its children: a descendant
+        # with the same id would be silently replaced in the registry
+        if self.id in pending:
+            raise ASTNodeRegistryCollisionError(
+                new_node=self,
+                existing_node=pending[self.id],
+                operation=operation,
+            )
+
+        pending[self.id] = self
 
         return None
 
